@@ -314,15 +314,18 @@ func (dsc *Discipline[Type]) waitZeroActual() {
 	}
 }
 
-func (dsc *Discipline[Type]) getOneFeedback() {
+// Returns true if the discipline was stopped while waiting for a feedback.
+func (dsc *Discipline[Type]) getOneFeedback() bool {
 	select {
 	case <-dsc.breaker.IsBreaked():
-		return
+		return true
 	case <-dsc.opts.Ctx.Done():
-		return
+		return true
 	case priority := <-dsc.opts.Feedback:
 		dsc.decreaseActual(priority)
 	}
+
+	return false
 }
 
 func (dsc *Discipline[Type]) getLimitedFeedback() {
@@ -376,8 +379,13 @@ func (dsc *Discipline[Type]) isInputExists(priority uint) bool {
 func (dsc *Discipline[Type]) base() (uint, error) {
 	processed := uint(0)
 
-	if err := dsc.waitCalcTactic(); err != nil {
+	stopped, err := dsc.waitCalcTactic()
+	if err != nil {
 		return processed, err
+	}
+
+	if stopped {
+		return processed, nil
 	}
 
 	processed += dsc.prioritize()
@@ -396,18 +404,21 @@ func (dsc *Discipline[Type]) base() (uint, error) {
 	return processed, nil
 }
 
-func (dsc *Discipline[Type]) waitCalcTactic() error {
+// Returns true if the discipline was stopped before a tactic could be calculated.
+func (dsc *Discipline[Type]) waitCalcTactic() (bool, error) {
 	for {
 		proceed, err := dsc.calcTactic()
 		if err != nil {
-			return err
+			return false, err
 		}
 
 		if proceed {
-			return nil
+			return false, nil
 		}
 
-		dsc.getOneFeedback()
+		if stopped := dsc.getOneFeedback(); stopped {
+			return true, nil
+		}
 	}
 }
 
